@@ -73,8 +73,8 @@ type prLists struct {
 
 type prNested struct {
 	V     version.Version
-	D     dependency.Dependency `control:"Depends"`
-	A     dependency.Arch       `control:"Architecture"`
+	D     dependency.Dependency    `control:"Depends"`
+	A     dependency.Arch          `control:"Architecture"`
 	Sums  []control.SHA256FileHash `control:"Checksums-Sha256" delim:"\n" strip:"\n\r\t "`
 	Files []control.MD5FileHash    `delim:"\n" strip:"\n\r\t "`
 	Name  string                   `required:"true"`
@@ -91,9 +91,9 @@ type prPass struct {
 	control.Paragraph
 	Package string
 	Size    int
-	Tags    []string `control:"Tag" delim:","`
+	Tags    []string        `control:"Tag" delim:","`
 	Ver     version.Version `control:"Version"`
-	Note    string `control:"X-Note"`
+	Note    string          `control:"X-Note"`
 	Flag    bool
 }
 
@@ -397,8 +397,8 @@ func (p c09) required(c *core.C, present bool, which int) {
 }
 
 type c09Pass struct {
-	Doc    model.Doc `json:"doc"`
-	Set    map[string]string `json:"set"`   // known field -> new text value ("" = clear)
+	Doc model.Doc         `json:"doc"`
+	Set map[string]string `json:"set"` // known field -> new text value ("" = clear)
 }
 
 // pass-through case.
